@@ -1049,7 +1049,10 @@ impl<'a> Analyzer<'a> {
           // Stale-edge finding? The conflict must exist over the recorded (shadow) edges.
           let conflict = conflict_recorded;
           let key = if conflict && conflict_not_doomed { format!("C20/stale-edge/{}", site) } else { String::new() };
-          self.add(s, &[Prop::C20, Prop::C19], "unjustified-abort", &key,
+          // C18: a build in which a resource checker failed must not abort because of it
+          let checker_failed = st.log.iter().any(|e| matches!(e, crate::world::Ev::RcCheck(_, _, _, Err(_))));
+          let props: &[Prop] = if checker_failed { &[Prop::C20, Prop::C19, Prop::C18] } else { &[Prop::C20, Prop::C19] };
+          self.add(s, props, "unjustified-abort", &key,
             format!("build aborted with '{}' (site {}), but a from-scratch build of all known tasks {:?} in cells {:?} has no cycle, hidden dependency or overlapping write; conflict over recorded edges: {}; a conflicting edge belongs to a task not already known to be inconsistent: {}",
               p.msg, site, tasks, &st.pre_cells[..self.prog.n_res as usize], conflict, conflict_not_doomed));
         }
